@@ -53,8 +53,8 @@ def analyse(W, name, f, ctx, desc, path):
                 viol("line:terminator", f"the line-ending field occurs {len(le)} time(s) / not at the end of the delivered line")
             elif len(parts) < 2 or not isinstance(parts[-2], RStripEnd):
                 viol("line:not-stripped", "the statement is not right-stripped immediately before the terminator")
-            if s.encoding != "utf-8":
-                viol("line:encoding", f"delivered bytes are encoded as {s.encoding!r}, not UTF-8")
+            if str(s.encoding).lower().replace("_", "-") not in ("utf-8", "utf8", "ascii", "us-ascii"):
+                viol("line:encoding", f"delivered bytes are encoded as {s.encoding!r}, not UTF-8 (or its ASCII subset)")
         # --- literal text
         for p in parts:
             if isinstance(p, Lit) and re.search(r"[\n\r\t]|  ", p.text):
